@@ -111,27 +111,6 @@ theorem exceptToOption_map {ε α β : Type} (g : α → β) (x : Except ε α) 
 
 /-! ### "plain" routines: no `sum_over`/`prod_over` in source expressions, no repetition -/
 
-/-- sequences whose closed forms are written without an iterator (constant, arithmetic, geometric) and whose parameters
-    contain none: the repetition wrappers covered by the refinement theorem -/
-def plainSeqB : Seq → Bool
-  | .constant m => (binders m).isEmpty
-  | .arithmetic i d => (binders i).isEmpty && (binders d).isEmpty
-  | .geometric r => (binders r).isEmpty
-  | _ => false
-
-def plainRepB : Option Repetition → Bool
-  | none => true
-  | some rp => (binders rp.count).isEmpty && plainSeqB rp.seq
-
-mutual
-def plainB : Routine → Bool
-  | ⟨_, _, _, lvs, _, ps, rs, _, rep, _, ch, _⟩ =>
-    lvs.all (fun kv => (binders kv.2).isEmpty) && ps.all (fun p => (binders p.size).isEmpty) &&
-    rs.all (fun r => (binders r.value).isEmpty) && plainRepB rep && plainListB ch
-def plainListB : List Routine → Bool
-  | [] => true
-  | c :: cs => plainB c && plainListB cs
-end
 
 end Bartiq
 
